@@ -1,4 +1,5 @@
 import CifModel.Lemmas.StoreTx
+import CifModel.Lemmas.StoreInv
 /-
   Lemmas/StoreWorld — lifting per-CIF facts to histories over several CIFs (`step` of Model/StoreStep).
 -/
@@ -106,5 +107,35 @@ theorem getValue_fst (s : Store) (h : CH) (n : Option Name) : (getValue s h n).1
   · split
     · rfl
     · split <;> rfl
+
+
+/-- every managed CIF of the history satisfies the invariant (content and every snapshot a rollback could restore) -/
+def WInv (w : World) : Prop := ∀ c s, w.cifs.getD c none = some s → InvS s
+
+theorem WInv.empty : WInv {} := by intro c s h; simp [List.getD] at h
+
+theorem WInv.of_cifs {w w' : World} (h : WInv w) (he : w'.cifs = w.cifs) : WInv w' := by
+  intro c s hs; rw [he] at hs; exact h c s hs
+
+theorem getD_set_any (cifs : List (Option Store)) (c c' : Nat) (x : Option Store) (s : Store)
+    (h : (cifs.set c x).getD c' none = some s) : x = some s ∨ cifs.getD c' none = some s := by
+  by_cases hc : c' = c
+  · subst hc
+    by_cases hl : c' < cifs.length
+    · left; simpa [List.getD, hl] using h
+    · right
+      have : cifs.set c' x = cifs := List.set_eq_of_length_le (by omega)
+      rw [this] at h; exact h
+  · right
+    simpa [List.getD, List.getElem?_set_ne (Ne.symm hc)] using h
+
+theorem WInv.setCif {w : World} (h : WInv w) (c : Nat) (s1 : Store) (h1 : InvS s1) : WInv (w.setCif c s1) := by
+  intro c' s hs
+  unfold World.setCif at hs
+  rcases getD_set_any _ _ _ _ _ hs with hx | hx
+  · cases hx; exact h1
+  · exact h c' s hx
+
+theorem WInv.live {w : World} (h : WInv w) {c : Nat} {s : Store} (hl : w.liveC c = some s) : InvS s := h c s hl
 
 end CifModel.Store
